@@ -249,7 +249,8 @@ Qed.
     of the window is inherited by the next header unless the limit grows by more than one. *)
 Lemma g_lo_step g now h :
   match update_client (g_st g) now h with
-  | Some st' => g_st (gstep g (now, h)) = st' /                g_lo (gstep g (now, h)) = N.max (g_lo g) (h_num h + 1 - seal_limit st')
+  | Some st' => g_st (gstep g (now, h)) = st' /\
+                g_lo (gstep g (now, h)) = N.max (g_lo g) (h_num h + 1 - seal_limit st')
   | None => gstep g (now, h) = g
   end.
 Proof.
